@@ -1,5 +1,6 @@
 import FluteModel.Drv.Util
 import FluteModel.Sched
+import FluteModel.SchedM
 /-
   Line-protocol driver of the scheduler model (engine `sched`).
 
@@ -184,10 +185,11 @@ def step (d : D) (args : List String) : D × String :=
     withState d fun s =>
       match nat? t, tks.mapM tick? with
       | some t, some ticks =>
-        -- the tick table is COMPUTED by the model (floor(target / n), /repo filedesc.rs after the repair of sched-4);
-        -- the `toi:tick` tokens of the op line are accepted for compatibility and ignored
+        -- `Sched.readM` (FluteModel/SchedM.lean): `read` with the tick the model computes ITSELF for every object
+        -- (`tickOf`: floor(target / n), /repo filedesc.rs after the repair of sched-4; `Props.C14.pacing_lower_bound_model`
+        -- is about exactly this constant); the `toi:tick` tokens of the op line are accepted and ignored
         let _ := ticks
-        let (s', out) := read s t (modelTicks s t)
+        let (s', out) := readM s t
         fin d s' (showEvents (newEvents s s') ++ showOut s' out)
       | _, _ => (d, "bad-op")
   | ["nb_objects"] => withState d fun s => (d, toString (nbObjects s))
